@@ -1,6 +1,7 @@
 import SaModel.Props.C01Obs
 import SaModel.Props.C05
 import SaModel.Props.C11Arrays
+import SaModel.Props.C03Traced
 /-
 The users of `C01_build_decode` / `C03_wf` / R2 / R3 restated WITHOUT the first clause of `Safe`, where dropping the
 hypothesis is a pure replacement of the theorem they call (Props/C01Obs.lean: `C01_build_decode'`, `C03_wf'`,
@@ -9,6 +10,7 @@ old one with a prime, in the old one's namespace:
 
   C05 (umbrella)   C05_push_ok_exact', C05_interp_undefined_rejected', C05_new_interp_undefined_rejected',
                    C05_toMarrow_ok_exact', C05_toMarrow_undefined_rejected'
+  C03 (instances)  C03_wf_codec', C03_wf_codec_typed', C03_wf_traced', C01_build_decode_codec'
   C10 (arrays)     C10_histories', C10_builds_wf'
   C11              presentation_independent', runRows_presentation_independent', C11_presentations',
                    C11_neighbours_undisturbed', C11_undefined_refused', C11_missing_or_duplicate_refused',
@@ -121,6 +123,85 @@ example : ∀ arrs, toMarrow {} Props.C01.exUnsafeFields
   exact C05_toMarrow_undefined_rejected' {} _ _ (by decide) (by decide) (Or.inl (by decide)) ⟨0, by decide, e, he⟩
 
 end SaModel.Props.C05
+
+namespace SaModel.Props.C03
+open SaModel SaModel.Build SaModel.Spec
+open SaModel.Props.C16 (codecExt)
+
+/-- `C03_wf_codec` with the hypothesis of `C03_wf'` (`Safe` OR `coveredF`) -/
+theorem C03_wf_codec' (f32Str f64Str : Nat → String) (cast : Nat → Int → Bool → Nat → Option (Bool × Int))
+    (fields : List Field) (rows : List SVal) (arrs : List Arr)
+    (hschema : ∀ f ∈ fields, Lemmas.C03.SchemaOKF f)
+    (hsafe : (∀ root0, newRoot fields = .ok root0 → Safe root0) ∨ fields.all Build.coveredF = true)
+    (hrows : ∀ x ∈ rows, Lemmas.C03.SValOK x)
+    (h : toMarrow (codecExt f32Str f64Str cast) fields rows = .ok arrs) :
+    arrs.length = fields.length ∧
+    ∀ (j : Nat) (f : Field) (a : Arr), fields[j]? = some f → arrs[j]? = some a →
+      WF f a = true ∧ (decodeAll a).length = rows.length :=
+  Props.C01.C03_wf' _ fields rows arrs hschema hsafe (codecExt_ok f32Str f64Str cast) hrows h
+
+/-- **C03 as the correspondence driver instantiates it**, `Safe` OR `coveredF` -/
+theorem C03_wf_codec_typed' (f32Str f64Str : Nat → String) (cast : Nat → Int → Bool → Nat → Option (Bool × Int))
+    (fields : List Field) (rows : List SVal) (arrs : List Arr)
+    (hschema : ∀ f ∈ fields, Lemmas.C03.SchemaOKF f)
+    (hsafe : (∀ root0, newRoot fields = .ok root0 → Safe root0) ∨ fields.all Build.coveredF = true)
+    (hrows : ∀ x ∈ rows, x.typed = true)
+    (h : toMarrow (codecExt f32Str f64Str cast) fields rows = .ok arrs) :
+    arrs.length = fields.length ∧
+    ∀ (j : Nat) (f : Field) (a : Arr), fields[j]? = some f → arrs[j]? = some a →
+      WF f a = true ∧ (decodeAll a).length = rows.length :=
+  C03_wf_codec' f32Str f64Str cast fields rows arrs hschema hsafe (fun x hx => typed_SValOK x (hrows x hx)) h
+
+/-- **C03 for a traced schema**, `Safe` OR `coveredF` (a traced schema with dictionary-encoded strings — a
+`Dictionary(UInt32, LargeUtf8)` column with non-nullable keys below an `Option<struct>` — is outside `Safe`, inside
+`coveredF`) -/
+theorem C03_wf_traced' (c : Trace.Code) (O : Trace.Options) (ty : Trace.Ty)
+    (f32Str f64Str : Nat → String) (cast : Nat → Int → Bool → Nat → Option (Bool × Int))
+    (fields : List Field) (rows : List SVal) (arrs : List Arr)
+    (ho : ∀ kv ∈ O.overwrites, Lemmas.C03.GoodF kv.2) (hft : Trace.fromType c O ty = .ok fields)
+    (hsafe : (∀ root0, newRoot fields = .ok root0 → Safe root0) ∨ fields.all Build.coveredF = true)
+    (hrows : ∀ x ∈ rows, x.typed = true)
+    (h : toMarrow (codecExt f32Str f64Str cast) fields rows = .ok arrs) :
+    arrs.length = fields.length ∧
+    ∀ (j : Nat) (f : Field) (a : Arr), fields[j]? = some f → arrs[j]? = some a →
+      WF f a = true ∧ (decodeAll a).length = rows.length :=
+  C03_wf_codec_typed' f32Str f64Str cast fields rows arrs (fromType_good c O ty fields ho hft).1 hsafe hrows h
+
+/-- **C01 with the codec models plugged in, no `Safe`** -/
+theorem C01_build_decode_codec' (f32Str f64Str : Nat → String) (cast : Nat → Int → Bool → Nat → Option (Bool × Int))
+    (fields : List Field) (rows : List SVal) (arrs : List Arr)
+    (hschema : ∀ f ∈ fields, Lemmas.C03.SchemaOKF f)
+    (hcov : fields.all Build.coveredF = true)
+    (hraw : ∀ x ∈ rows, Build.noRaw x = true)
+    (h : toMarrow (codecExt f32Str f64Str cast) fields rows = .ok arrs) :
+    arrs.length = fields.length ∧
+    ∃ cols : List (String × List LVal),
+      arrs.map decodeAll = cols.map (fun c => c.2.map .ok) ∧
+      cols.map (·.1) = fields.map (·.name) ∧
+      (∀ c ∈ cols, c.2.length = rows.length) ∧
+      ∀ (i : Nat) (hi : i < rows.length),
+        interpRow (codecExt f32Str f64Str cast) fields rows[i] =
+          .ok (.struct (LFields.ofList (cols.map fun c => (c.1, c.2.getD i .null)))) :=
+  Props.C01.C01_build_decode' _ fields rows arrs hschema hcov (fun x hx => Build.noRaw_ssa x (hraw x hx)) (Or.inl hraw) h
+
+/-- non-vacuity: the traced schema of `R { s: Option<S> }`, `S { d: String }` under dictionary encoding is the kind of
+schema `Safe` excludes and `coveredF` admits -/
+def exTracedFields : List Field :=
+  [.mk "s" (.struct (.cons (.mk "d" (.dictionary .uint32 .largeUtf8) false []) .nil)) true []]
+
+example : Trace.fromType .fixed { string_dictionary_encoding := true }
+      (.struct "R" (.cons "s" (.option (.struct "S" (.cons "d" .string .nil))) .nil)) = .ok exTracedFields ∧
+    exTracedFields.all Build.coveredF = true ∧ (∀ root0, newRoot exTracedFields = .ok root0 → ¬ Safe root0) := by
+  refine ⟨by decide +kernel, by decide +kernel, ?_⟩
+  intro root0 h0
+  rw [show newRoot exTracedFields = .ok (.struct "$" 0 none
+    (.cons (.struct "$.s" 0 (some [])
+        (.cons (.dictionary "$.s.d" (.leaf "$.s.d.key" (.int .u32) none []) (.bytes "$.s.d.value" .largeUtf8 none [0] []) [])
+          ⟨"d", false, []⟩ .nil) [none] 0 [false]) ⟨"s", true, []⟩ .nil) [none] 0 [false]) from by decide] at h0
+  cases h0
+  simp [Safe, SafeL, DefSafe, DefSafeL, B.isNullable]
+
+end SaModel.Props.C03
 
 namespace SaModel.Props.C10
 open SaModel SaModel.Build SaModel.Spec
